@@ -184,6 +184,9 @@ func (d *dialer) dial(redial bool) error {
 	// 3. After timing out from a failed connection attempt.
 
 	if !redial {
+		// A failed synchronous dial leaves the dialer idle, so that the
+		// application can correct the problem and call Dial again.
+		d.active = false
 		return err
 	}
 	switch err {
